@@ -75,6 +75,25 @@ def cases():
         lambda e: e["steps"][1]["hooks"].append({"id": "X", "new": [0, 0]}), "no_unexplained_overwrite")
     add("result differs from fresh", drivers.drv_history, hist, "history",
         lambda e: e["steps"][1]["res"]["dpv"].__setitem__(0, 9), "result_as_fresh")
+    add("objective level structure", drivers.drv_select, sel, "select",
+        lambda e: e["received"]["objectives"][0].__setitem__(0, 0), "objective_levels")
+    add("default priority tag", drivers.drv_select, sel, "select",
+        lambda e: (e["received"]["dpv"].__setitem__(0, -3), e["direct"]["dpv"].__setitem__(0, -3)), "dpv_expected")
+    G = R("Any", b, c)
+    sh = {"first": props._cc("Cfg", props._cc("ccAny", a, G, id="X", d="a"), id="c1"), "second": props._cc("Cfg", props._cc("ccAny", L("x"), G, id="Y", d="x"), id="c2")}
+    add("first model changed by building the second", drivers.drv_shared_build, sh, "shared_build",
+        lambda e: e["first_after"]["default_prios"][0].__setitem__(1, -9), "store_unchanged")
+    add("shared build differs from fresh", drivers.drv_shared_build, sh, "shared_build",
+        lambda e: e["second"]["cfg_poly"]["dpv"].__setitem__(0, -9), "result_as_fresh")
+    xp = {"rows": [[1, 1, 2, 0], [0, -1, 1, 1]], "bounds": [[0, 1], [0, 2], [0, 1]], "k": 0, "mask": [1, 0, 0], "patterns": [[1, 1, 0], [0, 1, 1]]}
+    add("neglected support vector", drivers.drv_x_poly, xp, "x_neglect", lambda e: e["res"][0].__setitem__("b", e["res"][0]["b"] + 1), "neglect_exact")
+    add("receiver after neglect", drivers.drv_x_poly, xp, "x_neglect", lambda e: e["recv_after"][0]["a"].__setitem__(1, 7), "neglect_receiver")
+    add("neglectable column", drivers.drv_x_poly, xp, "x_neglectable", lambda e: e["res"].__setitem__(0, 1 - e["res"][0]), "neglectable")
+    add("row stretch fraction", drivers.drv_x_poly, xp, "x_row_stretch", lambda e: e["stretch"][0].__setitem__(0, e["stretch"][0][0] + 1), "row_stretch")
+    add("text line dropped", drivers.drv_x_model, {"recipe": m2}, "x_to_text", lambda e: (e["lines"].pop(), e["raw"].pop()), "text_lines")
+    add("text lines out of order", drivers.drv_x_model, {"recipe": m2}, "x_to_text", lambda e: e["raw"].reverse(), "text_sorted")
+    add("edited polyhedron packs stale", drivers.drv_b64, {"recipe": cfg}, "b64poly",
+        lambda e: e["p_again"]["rows"][0].__setitem__("b", e["p_again"]["rows"][0]["b"] + 1), "poly_again_same")
     add("malformed event (evaluation error)", drivers.drv_errors, {"recipe": m2}, "errors",
         lambda e: e["model"].__setitem__("kids", 3), "spec_eval_error")
     return out
